@@ -3,6 +3,10 @@
 import json, sys
 pid = sys.argv[1]
 n = sys.argv[2] if len(sys.argv) > 2 else "2"
+first = int(sys.argv[3]) if len(sys.argv) > 3 else 1
+avoid = sys.argv[4] if len(sys.argv) > 4 else ""
+last = first + int(n) - 1
+avoid_txt = ("\n\nAn earlier round already produced the following changes for this property; yours must be DIFFERENT in kind (another code site, another clause of the property, another triggering condition), not variations of these:\n" + avoid + "\n") if avoid else ""
 for l in open('/verif/properties.jsonl'):
     p = json.loads(l)
     if p['id'] == pid:
@@ -14,14 +18,14 @@ The property under study ({pid}: {p['title']}):
   {p['statement']}
 
   It must hold: {p['quantifier']['text']}.
-
+{avoid_txt}
 Your task: produce {n} DIFFERENT, independent source changes (each a separate small patch against the worktree's HEAD) to the crate (files under src/ or codegen/) such that, for each change:
   1. the crate still compiles, and the existing test suite still passes unchanged (`cargo test --workspace --offline` in the worktree; you may not edit, delete or ignore existing tests);
   2. the change BREAKS the property above for some inputs/schedules/histories;
   3. it is realistic (the kind of slip a maintainer could make in a refactor or 'optimisation': an off-by-one, a wrong branch order, a dropped case, a changed comparison, a state update moved across an await, two sites that each look fine alone ...), not sabotage that ordinary use would expose at once. Prefer changes that need something specific to manifest: a particular interleaving, a multi-step sequence of operations, an unusual input, a particular configuration combination, or two cooperating sites.
   4. you provide a demonstration: a small self-contained Rust program or test (e.g. a new file under tests/ or examples/ of the worktree, or a tiny separate crate depending on the worktree by path with an empty [workspace] table and a copy of the worktree's Cargo.lock) that FAILS (non-zero exit / failed assertion) with the change applied and PASSES on the unmodified HEAD. Actually run it both ways and report the outputs.
 
-Deliver, for change k = 1..{n}, a directory /tmp/seed-out/{pid}-k/ containing:
+Deliver, for change k = {first}..{last}, a directory /tmp/seed-out/{pid}-k/ containing:
   - patch.diff   : `git diff` of the source change only (must apply with `git apply` to a clean HEAD; do NOT include the demo in it)
   - demo/        : the demonstration files plus a file RUN.md saying exactly where to put them and which command to run
   - notes.md     : which clause of the property breaks, what is needed for it to manifest, the output of the existing test suite with the change (summary lines), and the demo output with and without the change.
